@@ -115,6 +115,12 @@ func (s *brSys) call(name, kind string) {
 		wantOK = true
 	case "unacc":
 		ret = b.DoWithAcceptable(req(errBoom), acceptable)
+	case "nilunacc":
+		// the caller's predicate decides, also when the request itself returned no error
+		// (e.g. an HTTP client treating a 5xx answer as a failure of the dependency)
+		ret = b.DoWithAcceptable(req(nil), func(error) bool { return false })
+	case "fbnilunacc":
+		ret = b.DoWithFallbackAcceptable(req(nil), func(err error) error { fbCalled = true; fbArg = err; return errors.New("from-fallback") }, func(error) bool { return false })
 	case "fbfail":
 		ret = b.DoWithFallback(req(errBoom), func(err error) error { fbCalled = true; fbArg = err; return errors.New("from-fallback") })
 	case "fbacc":
@@ -296,7 +302,7 @@ func brSetup() {
 func TestVerifBreakerHistories(t *testing.T) {
 	defer vrt.WriteReport()
 	brSetup()
-	ops := []string{"ok", "fail", "failx6", "okx6", "acc", "unacc", "panic", "fbfail", "fbacc", "allowA", "allowR",
+	ops := []string{"ok", "fail", "failx6", "okx6", "acc", "unacc", "nilunacc", "fbnilunacc", "panic", "fbfail", "fbacc", "allowA", "allowR",
 		"draw:lo", "draw:mid", "draw:hi", "t125", "t250", "t2500", "t9750", "t10000", "t10250", "t25000",
 		"A:failx6", "A:ok", "B:fail", "B:failx6", "A:nobreaker"}
 	depth := 4
